@@ -114,9 +114,15 @@ HeadBucket(st, cfg, op) ==
   LET e == Ensure(st, cfg, op.b) IN
   IF ~e.ok THEN Err(st, "NoSuchBucket") ELSE Ok(e.st, [st |-> 200, code |-> ""])
 
+\* (x-minio-force-delete: true removes the bucket together with everything in it; pending multipart
+\* uploads are not part of the bucket's storage and stay.)
 DeleteBucket(st, cfg, op) ==
   LET e == Ensure(st, cfg, op.b) IN
   IF ~e.ok THEN Err(st, "NoSuchBucket")
+  ELSE IF "force" \in DOMAIN op /\ op.force
+    THEN IF cfg.single = "" THEN Ok([e.st EXCEPT !.bk = Del(@, op.b)], [st |-> 204, code |-> ""])
+         \* the one bucket of a single-bucket system cannot go away: it is emptied
+         ELSE Ok([e.st EXCEPT !.bk[op.b].objs = <<>>], [st |-> 204, code |-> ""])
   ELSE IF cfg.single # "" THEN Err(e.st, "NotImplemented")
   ELSE IF AllKeys(e.st, op.b) # {} THEN Err(e.st, "BucketNotEmpty")
   ELSE Ok([e.st EXCEPT !.bk = Del(@, op.b)], [st |-> 204, code |-> ""])
@@ -143,11 +149,15 @@ ReadReply(v, withBody, showVid) ==
   [meta |-> v.meta] @@
   (IF showVid /\ ~v.nul THEN [vid |-> v.vid] ELSE <<>>)
 
+\* conditional read: If-None-Match carrying the ETag of body op.inm answers 304 NotModified (no body)
+\* exactly when that is the current body's ETag
 GetOrHead(st, cfg, op, withBody) ==
   LET e == Ensure(st, cfg, op.b) IN
   IF ~e.ok THEN Err(st, "NoSuchBucket")
   ELSE LET s == Stack(e.st, op.b, op.k) IN
        IF ~Live(s) THEN Err(e.st, "NoSuchKey")
+       ELSE IF "inm" \in DOMAIN op /\ op.inm = Cur(s).body /\ ~Cur(s).mp
+         THEN Ok(e.st, [st |-> 304, code |-> "*", nobody |-> TRUE])
        ELSE Ok(e.st, ReadReply(Cur(s), withBody, Enabled(e.st, op.b)))
 
 \* plain DELETE of one key; returns the set of admissible [st, vid, dm]
